@@ -120,6 +120,13 @@ func resolve(style, wantKind, wantName string, wantNamed, wantFail bool) *ev.Vio
 	t2 := tabular.New()
 	fill(t2)
 	out2, err2 := auto.Render(t2, style)
+	t2b := tabular.New()
+	fill(t2b)
+	var buf strings.Builder
+	err2b := auto.RenderTo(t2b, &buf, style)
+	if (err2b != nil) != (err != nil) || (err == nil && buf.String() != out) {
+		return ev.V("auto.RenderTo(t, w, %q) gives err=%v and %q; auto.New(%q).Render() gives err=%v and %q", style, err2b, buf.String(), style, err, out)
+	}
 	if out != out2 || (err != nil) != (err2 != nil) {
 		return ev.V("auto.New(%q).Render() and auto.Render(t,%q) disagree: %q/%v vs %q/%v", style, style, out, err, out2, err2)
 	}
@@ -189,6 +196,14 @@ func CheckCase(c Case) *ev.Violation {
 	pkgNamed := map[string]bool{}
 	checkListing := func(step int) *ev.Violation {
 		for rep := 0; rep < 2; rep++ {
+			if rep == 1 {
+				// what the first call handed out is the caller's: it may do with it what it likes
+				mine := auto.ListStyles()
+				for k := range mine {
+					mine[k] = "  scribbled by the caller"
+				}
+				sort.Sort(sort.Reverse(sort.StringSlice(mine)))
+			}
 			l := auto.ListStyles()
 			if !sort.StringsAreSorted(l) {
 				return ev.V("step %d: ListStyles (call %d) is not sorted: %v", step, rep+1, l)
